@@ -112,6 +112,38 @@ static void potentialCase(const std::string &id, size_t npts, double halfwidth, 
   }
 }
 
+// A potential that is a finite well: supported on a strict sub-window of its grid (zero outside), or empty.
+static void wellCase(const std::string &id, size_t npts, size_t from, size_t to, double depth, double shift) {
+  if (!begin(id)) return;
+  std::vector<double> pts;
+  for (size_t i = 0; i < npts; i++) pts.push_back(-5.0 + 10.0 * static_cast<double>(i) / static_cast<double>(npts - 1));
+  try {
+    bspline::support::Grid<double> grid(pts);
+    auto make = [&](double level, double offset) {
+      // level on [from, to), offset everywhere: the sum of a sub-window spline and (if offset != 0) a whole-grid constant
+      std::vector<std::array<double, 4>> cs;
+      for (size_t i = from; i + 1 < to; i++) cs.push_back({level, 0.0, 0.0, 0.0});
+      PSpline well(from < to ? bspline::support::Support<double>(grid, from, to) : bspline::support::Support<double>::createEmpty(grid), cs);
+      if (offset == 0.0) return well;
+      std::vector<std::array<double, 4>> cw(npts - 1, std::array<double, 4>{offset, 0.0, 0.0, 0.0});
+      return PSpline(well + PSpline(bspline::support::Support<double>::createWholeGrid(grid), cw));
+    };
+    const auto es = spline_potential::solveSEWithSplinePotential(make(depth, 0.0));
+    const size_t nbasis = npts >= 12 ? npts - 11 : 0;
+    report(id, "eigenpair_count", es.size() == std::min<size_t>(10, nbasis), fmt("returned %g eigenpairs, basis size %g", (double)es.size(), (double)nbasis));
+    const auto es2 = spline_potential::solveSEWithSplinePotential(make(depth, shift));
+    double worst = 0, scale = 1;
+    for (size_t i = 0; i < std::min(es.size(), es2.size()); i++) {
+      worst = std::max(worst, std::fabs(es2[i].energy - es[i].energy - shift));
+      scale = std::max(scale, std::fabs(es[i].energy));
+    }
+    report(id, "shift", es.size() == es2.size() && worst <= 1e-8 * scale * std::max(1.0, std::fabs(shift)),
+           fmt("c=%g max|E'(i)-E(i)-c|=%.3e scale=%.3e", shift, worst, scale));
+  } catch (const std::exception &e) {
+    report(id, "no_exception", false, e.what());
+  }
+}
+
 int main(int argc, char **argv) {
   const unsigned long long seed = argc > 1 ? std::stoull(argv[1]) : 1;
   const std::string tier = argc > 2 ? argv[2] : "quick";
@@ -128,6 +160,12 @@ int main(int argc, char **argv) {
   // spline potential: interpolation grids on both sides of the ten-eigenvalue boundary (21 points)
   std::vector<size_t> grids = thorough ? std::vector<size_t>{8, 12, 13, 15, 20, 21, 22, 30, 45, 60} : std::vector<size_t>{12, 15, 21, 30};
   for (size_t n : grids) potentialCase("pot_" + std::to_string(n), n, 6.0, (n % 2) ? 2.5 : -1.25);
+
+  // finite wells: the potential's support is a strict sub-window of the grid, a single interval, or empty
+  wellCase("well_inner", 30, 8, 22, -2.0, 1.5);
+  wellCase("well_left", 26, 0, 9, -1.0, -0.75);
+  wellCase("well_one_interval", 24, 11, 13, -3.0, 2.0);
+  wellCase("well_empty", 24, 0, 0, 0.0, 0.5);
 
   if (begin("harmonic")) {
     const auto es = harmonic_oscillator::solveHarmonicOscillator();
